@@ -115,7 +115,11 @@ impl InnerInMemory {
             if let Some(record) = self.records.get(&rr_key) {
                 records.push(record.clone());
             }
-        } else if qtype != RecordType::DS {
+        } else if qtype != RecordType::DS
+            || !self.records.keys().any(|rr_key| &rr_key.name == qname)
+        {
+            // Only the opt-out "no DS at an existing insecure delegation" response (RFC 5155 section
+            // 7.2.4) does without the wildcard; a name error needs it whatever the QTYPE.
             let wildcard_at_closest_encloser = next_closer_name.into_wildcard();
             if let Some(cover) = self.find_cover(&wildcard_at_closest_encloser, zone, &info)? {
                 records.push(cover);
